@@ -50,6 +50,7 @@ pub fn run(ctx: &Ctx) -> Report {
     "hook pick_piece_length on every 2^k-1, 2^k, 2^k+1 (k=0..64, complete), float edges (2^53±1, 2^63, u64::MAX), random sizes and random pairs; \
      `imdl torrent piece-length` table and the book's table; sparse real files through create; non-trivial = size > 1; distinct by size",
   );
+  report.rule.push_str("; create: other options riding along, standard input, the torrent written into its own input twice, hard links, totals exactly on a step split over several files, --allow without --piece-length; the table under --color never and --quiet");
   report.correspondences.push("C15.hook: PieceLengthPicker::from_content_size = Imdlv.Lints.pick".into());
   report.correspondences.push("C15.table: `imdl torrent piece-length` stdout = Imdlv.Lints.table = book table".into());
   let mut model = Model::spawn(&ctx.vmodel);
